@@ -14,7 +14,7 @@ from . import config, inject, ctxcheck
 VERIF = config.VERIF
 REPO = config.REPO
 WORK = os.path.join(VERIF, ".work")
-EVID = os.path.join(VERIF, "evidence")
+EVID = os.environ.get("VERIF_EVIDENCE_DIR") or os.path.join(VERIF, "evidence")   # VERIF_EVIDENCE_DIR: seeded-change runs (bin/seedtest_wt) write elsewhere
 REPLAY_DIR = os.path.join(EVID, "replay")
 
 BASE_CHECKS = ["--bounds-check", "--pointer-check", "--signed-overflow-check",
